@@ -622,6 +622,7 @@ def err_code(e: Exception) -> str:
 
 
 _PARSERS = {}
+TOK_CACHE: dict = {}
 
 
 def parsers():
@@ -665,10 +666,22 @@ class ImplTree:
             out.append(i)
         return nstr(out)
 
-    def select_tok(self, tok, i: int) -> str:
+    def select_tok(self, tok, i: int, init=None) -> str:
+        """token-level evaluation; `self.left` = the caller's context afterwards (item, axis, position, size)
+        and whether its variables are untouched.  init = (position, size, axis) arguments of the context."""
+        self.left = None
         try:
-            ctx = self.XPathContext(self.node_tree, namespaces=dict(self.b.ns), fragment=self.frag, item=self.ctxnode[i])
-            return self.indices(list(tok.select(ctx)))
+            kw = {}
+            if init:
+                kw = dict(position=init[0], size=init[1])
+                if init[2]:
+                    kw['axis'] = init[2]
+            ctx = self.XPathContext(self.node_tree, namespaces=dict(self.b.ns), fragment=self.frag, item=self.ctxnode[i], **kw)
+            variables = dict(ctx.variables)
+            res = self.indices(list(tok.select(ctx)))
+            j = self.b.keyidx.get(self.b.key_of(ctx.item, self.xn), -1) if isinstance(ctx.item, self.xn.XPathNode) else -2
+            self.left = f'{j},{ctx.axis or "-"},{ctx.position},{ctx.size}' + ('' if ctx.variables == variables else ',VARS-CHANGED')
+            return res
         except Exception as e:
             return err_code(e)
 
@@ -787,7 +800,7 @@ def choose_ctx(b: 'Built', c: dict) -> list[int]:
 
 def case_json(c):
     return {'tree': c['tree'], 'pre': c['pre'], 'post': c['post'], 'expr': c['expr'], 'lib': c['lib'],
-            'mode': c['mode'], 'ns': c.get('ns'), 'xpath': render(c['expr'])}
+            'mode': c['mode'], 'ns': c.get('ns'), 'init': c.get('init'), 'xpath': render(c['expr'])}
 
 
 def compare(run: Run, cases: list[dict], full: bool = True, lxml_check: bool = True) -> None:
@@ -799,8 +812,10 @@ def compare(run: Run, cases: list[dict], full: bool = True, lxml_check: bool = T
         b = Built(c['tree'], c['pre'], c['post'], c['lib'], c['mode'], c.get('ns'))
         builts.append(b)
         c['ctx'] = choose_ctx(b, c)
+        init = c.get('init')
+        extra = (f" F={init[0]},{init[1]}" + (f" AX={init[2]}" if init[2] else '')) if init else ''
         lines.append(f"M={c['mode']} T={b.tree_field()} X={'~'.join(b.xtoks)} E={'~'.join(polish(c['expr']))} "
-                     f"C={','.join(str(i) for i in c['ctx'])}")
+                     f"C={','.join(str(i) for i in c['ctx'])}" + extra)
     answers = drive(run, lines)
     P = parsers()
     for c, b, line, ans in zip(cases, builts, lines, answers):
@@ -814,10 +829,11 @@ def compare(run: Run, cases: list[dict], full: bool = True, lxml_check: bool = T
             # harness fault: generated tree not well-formed for the Lean encoding / ill-typed expression
             run.disagree(Disagreement(cj, 'harness:' + head, what='wf-or-typing-of-generated-input'))
             continue
-        per = {}
+        per, perfin = {}, {}
         for item in rfield.split('|'):
-            i, mv, sv, k = item.split(':')
+            i, mv, sv, k, fin, same = item.split(':')
             per[int(i)] = (mv, sv, int(k))
+            perfin[int(i)] = (fin, same)
         path = cj['xpath']
         st.count(f'lib:{c["lib"]}')
         st.count(f'mode:{c["mode"]}')
@@ -827,7 +843,16 @@ def compare(run: Run, cases: list[dict], full: bool = True, lxml_check: bool = T
         st.count(f'preds={count_kind(c["expr"], ("p",))}')
         try:
             it = ImplTree(b)
-            toks = {v: cls(namespaces=dict(b.ns)).parse(path) for v, cls in P.items()}
+            # compiled token trees are shared between all cases of the process with the same path and
+            # bindings: the SAME token is evaluated on different documents, root forms and context items
+            tkey = (path, tuple(sorted(b.ns.items())))
+            if tkey not in TOK_CACHE:
+                if len(TOK_CACHE) > 4000:
+                    TOK_CACHE.clear()
+                TOK_CACHE[tkey] = {v: cls(namespaces=dict(b.ns)).parse(path) for v, cls in P.items()}
+            else:
+                st.count('token-reused-on-another-case')
+            toks = TOK_CACHE[tkey]
         except Exception as e:
             run.disagree(Disagreement(cj, err_code(e), model=per[min(per)][0], spec=per[min(per)][1],
                                       what='parse-or-tree-build', site='parser'))
@@ -851,16 +876,39 @@ def compare(run: Run, cases: list[dict], full: bool = True, lxml_check: bool = T
         if len(ctxs) != len(c['ctx']):
             run.disagree(Disagreement(cj, 'harness:context-nodes-missing', what='node-identity-map'))
             continue
-        extra_ctx = set(ctxs[:1] + ctxs[len(ctxs) // 2:len(ctxs) // 2 + 1]) if full else set()
-        use_lxml = (lxml_check and c['lib'] == 'lxml' and c['mode'] == 'doc' and 'namespace' not in axes_of(c['expr'])
+        extra_ctx = set(ctxs[:1] + ctxs[len(ctxs) // 2:len(ctxs) // 2 + 1]) if (full and not c.get('init')) else set()
+        use_lxml = (lxml_check and not c.get('init') and c['lib'] == 'lxml' and c['mode'] == 'doc' and 'namespace' not in axes_of(c['expr'])
                     # libxml2's preceding axis stops at the first child of the document node
                     # (xmlXPathNextPrecedingInternal), wrong for nodes after the root element
                     and not ('preceding' in axes_of(c['expr']) and b.post_objs))
         for i in ctxs:
             mv, sv, k = per[i]
-            impl = it.select_tok(toks['1.0'], i)
+            init = c.get('init')
+            impl = it.select_tok(toks['1.0'], i, init)
             tags = (['F01b'] if k & 1 else []) + (['F01c'] if k & 2 else []) + (['F01i'] if k & 4 else [])
-            cji = dict(cj, ctx=i)
+            cji = dict(cj, ctx=i, init=init)
+            if perfin[i][1] != '1' and not (init and init[2]):
+                run.disagree(Disagreement(cji, 'driver: evalS value differs from eval', what='protocol-evalS'))
+            # the caller's context after the evaluation: item, axis, position, size (and variables)
+            if it.left is not None and not k:
+                st.count('context-after-checked')
+                if it.left != perfin[i][0]:
+                    # specified (theorem eval_leaves_context): unchanged, unless the expression ends in a
+                    # namespace step on the caller's own context
+                    e0 = c['expr']
+                    while e0[0] in ('g', 'count'):
+                        e0 = e0[1]
+                    ns_tail = e0[0] == 's' and e0[1] == 'namespace'
+                    entry = f'{i},{(init[2] if init and init[2] else "-")},{init[0] if init else 1},{init[1] if init else 1}'
+                    run.disagree(Disagreement(cji, it.left, perfin[i][0], None if (ns_tail or (init and init[2])) else entry,
+                                              what='caller-context-after-evaluation',
+                                              site='save/restore of the dynamic context (select_with_focus, iterators, leading /)'))
+            if init and init[2]:
+                # non-None initial axis= argument: API-specific, no W3C specification: model vs implementation
+                st.count('initial-axis-checked')
+                if impl != mv:
+                    run.disagree(Disagreement(cji, impl, mv, None, what='select-nodes-initial-axis', site='context.axis on entry'))
+                continue
             ids = parse_idx(sv) or []
             st.case([c['lib'], c['mode'], path, b.tree_field(), i], nontrivial=len(ids) > 0)
             st.count('results=' + ('0' if not ids else '1' if len(ids) == 1 else '2-4' if len(ids) < 5 else '5+'))
@@ -880,6 +928,18 @@ def compare(run: Run, cases: list[dict], full: bool = True, lxml_check: bool = T
                     if r != impl:
                         run.disagree(Disagreement(dict(cji, parser=v), r, mv, sv, what=f'parser-{v}-vs-1.0',
                                                   site='XPath2+ parser', tags=tags))
+                # the other evaluation path: token.evaluate(context)
+                for v in ('1.0', '3.1'):
+                    try:
+                        ctx = it.XPathContext(it.node_tree, namespaces=dict(b.ns), fragment=it.frag, item=it.ctxnode[i])
+                        ev = toks[v].evaluate(ctx)
+                        r = it.indices(ev if isinstance(ev, list) else [ev])
+                    except Exception as e:
+                        r = err_code(e)
+                    st.count('evaluate-path-checked')
+                    if r != impl:
+                        run.disagree(Disagreement(dict(cji, parser=v, api='token.evaluate'), r, mv, sv, what='evaluate-vs-select',
+                                                  site='XPathToken.evaluate', tags=tags))
                 kind = b.recs[i][0]
                 if kind in ('E', 'D') or (b.mode == 'dummy' and i == 1):
                     self_check_public(run, it, b, cji, path, i, impl, tags)
@@ -1114,7 +1174,7 @@ def history_correspond(run: Run) -> None:
         if not ans.startswith('wf=1 fl=1 ty=path R='):
             run.disagree(Disagreement(cj, 'driver:' + ans[:80], what='protocol-history'))
             continue
-        _, mv, sv, k = ans.split(' R=')[1].split(':')
+        _, mv, sv, k = ans.split(' R=')[1].split(':')[:4]
         ids = parse_idx(sv)
         it = ImplTree(b)
         v = c['version']
@@ -1219,7 +1279,7 @@ COMBOS = [('et', 'dummy'), ('lxml', 'doc'), ('et', 'doc'), ('lxml', 'dummy'), ('
 
 def correspond(run: Run) -> None:
     rng = run.rng
-    ntrees = int(__import__('os').environ.get('C01_NTREES') or run.scale(380, 3000))
+    ntrees = int(__import__('os').environ.get('C01_NTREES') or run.scale(330, 2600))
     per_tree = run.scale(10, 14)
     cases = corpus_cases()
     for t in range(ntrees):
@@ -1244,6 +1304,14 @@ def correspond(run: Run) -> None:
                     'ctxseed': rng.randrange(1 << 30)}
             if deep:
                 case['ns'] = dict(NS_EXT)
+            r = rng.random()
+            if r < 0.10:      # non-default position= / size= of the context
+                size = rng.choice([1, 2, 3, 4])
+                case['init'] = [rng.randint(1, size), size, None]
+            elif r < 0.16:    # non-None initial axis= (first step tests the context item itself)
+                size = rng.choice([1, 1, 3])
+                case['init'] = [rng.randint(1, size), size, rng.choice(['self', 'child', 'attribute', 'descendant-or-self',
+                                                                         'parent', 'ancestor', 'following-sibling', 'preceding'])]
             cases.append(case)
     _TEST_CODES[:] = ['P']
     run.stats.rule = ('(tree, expression, root form, library, context item): trees from a grammar biased to nested same-name '
@@ -1259,6 +1327,14 @@ def correspond(run: Run) -> None:
         if k not in seen:
             seen.add(k)
             sample.append(c)
+    # a fixed pool of expressions evaluated with process-wide shared tokens on many different documents
+    pool = [e for _, e in CORPUS_EXPR[:6]] + history_paths()[:4]
+    for c in sample[:run.scale(40, 300)]:
+        if c.get('ns'):
+            continue
+        for e in pool:
+            cases.append({'tree': c['tree'], 'pre': c['pre'], 'post': c['post'], 'expr': e, 'lib': c['lib'], 'mode': c['mode'],
+                          'ctxseed': 7})
     state_correspond(run, sample[:run.scale(60, 400)])
     history_correspond(run)
     chunk = 400
@@ -1541,6 +1617,47 @@ def translate_methods(run: Run) -> dict:
             arow.append(ids)
         arows.append((sym, arow))
 
+    # structural facts about the two symbols whose function objects differ in 2.0+ (`attribute`, `(`)
+    import ast, inspect, textwrap
+    from elementpath.xpath_tokens import XPathToken
+
+    def fn_ast(f):
+        return ast.parse(textwrap.dedent(inspect.getsource(f))).body[0]
+
+    def dump(nodes):
+        return [ast.dump(n) for n in nodes]
+    facts = []
+    try:
+        a10 = P['1.0'].symbol_table['attribute']
+        a20 = P['2.0'].symbol_table['attribute']
+        f10, f20 = fn_ast(a10.select), fn_ast(a20.select)
+        loop10 = [n for n in f10.body if isinstance(n, ast.For)]
+        # 2.0: `if context is None: raise … elif self.label == 'axis': <body> …`
+        branch20 = None
+        for n in ast.walk(f20):
+            if isinstance(n, ast.If) and ast.unparse(n.test) == "self.label == 'axis'":
+                branch20 = n.body
+        facts.append(('attribute20-axis-branch-is-the-1.0-loop', branch20 is not None and len(loop10) == 1 and
+                      dump(branch20) == dump(loop10)))
+        facts.append(('attribute-select-is-the-same-in-2.0-3.0-3.1',
+                      a20.select is P['3.0'].symbol_table['attribute'].select is P['3.1'].symbol_table['attribute'].select))
+        facts.append(('attribute20-select_with_focus-is-the-base-forward-one', a20.select_with_focus is XPathToken.select_with_focus))
+        facts.append(('attribute10-is-a-forward-axis', a10.reverse_axis is False))
+        p10, p20 = fn_ast(P['1.0'].symbol_table['('].select), fn_ast(P['2.0'].symbol_table['('].select)
+        facts.append(('paren10-select-passes-through', [ast.unparse(n) for n in p10.body if not isinstance(n, ast.Expr)] ==
+                      ['return self[0].select(context)']))
+        facts.append(('paren20-select-passes-through-when-non-empty',
+                      [ast.unparse(n) for n in p20.body if not isinstance(n, ast.Expr)] ==
+                      ['return self[0].select(context) if self else iter(())']))
+        # 3.0 / 3.1 register only `evaluate` for '(' (dynamic function calls): select is the generic
+        # XPathToken.select over evaluate()
+        facts.append(('paren30-select-is-the-generic-select-over-evaluate',
+                      P['3.0'].symbol_table['('].select is XPathToken.select))
+        facts.append(('paren31-is-the-3.0-object', P['3.0'].symbol_table['('].select is P['3.1'].symbol_table['('].select and
+                      P['3.0'].symbol_table['('].evaluate is P['3.1'].symbol_table['('].evaluate))
+    except Exception as e:     # source not available / shape changed: the fact is false, the theorem breaks
+        facts.append((f'introspection-failed-{type(e).__name__}', False))
+
     def ll(x):
         return '[' + ', '.join(ll(y) if isinstance(y, list) else str(y) for y in x) + ']'
     out = ['/- GENERATED by harness/c01.py::translate_methods from the live parser classes -- do not edit -/',
@@ -1552,6 +1669,8 @@ def translate_methods(run: Run) -> dict:
     out += ['', '/-- (symbol, for each of lbp / rbp / label / reverse_axis: the value in the four classes, numbered) -/',
             'def attrs : List (String × List (List Nat)) := [']
     out.append(',\n'.join(f'  ("{sym}", {ll(m)})' for sym, m in arows) + ']')
+    out += ['', '/-- structural facts (AST comparison of the live sources) about `attribute` and `(` in 2.0+ -/',
+            'def facts : List (String × Bool) := [' + ', '.join(f'("{n}", {"true" if v else "false"})' for n, v in facts) + ']']
     out += ['', 'end EPV.Gen.C01', '']
     gen = LEAN / 'EPV' / 'Gen' / 'C01Methods.lean'
     gen.parent.mkdir(exist_ok=True)
@@ -1559,7 +1678,7 @@ def translate_methods(run: Run) -> dict:
     if not gen.exists() or gen.read_text() != text:
         gen.write_text(text)
     differing = [sym for sym, m in rows if any(len(set(ids)) > 1 for ids in m[:3])]
-    return {'symbols': len(rows), 'select_evaluate_focus_differ': differing}
+    return {'symbols': len(rows), 'select_evaluate_focus_differ': differing, 'facts': facts}
 
 
 # ===================================================================== entry
@@ -1576,7 +1695,7 @@ def body(run: Run) -> int:
     run.stats.extra['method_table'] = translate_methods(run)
     run.trusted_base.append('translator harness/c01.py::translate_methods (function-object identity of the token methods of the '
                             'four parser classes, printed as a Lean table)')
-    run.prove(['EPV.Props.C01', 'EPV.Props.C01Methods'], ['EPV.Spec.XPath1Paths', 'EPV.Model.AxesTree', 'EPV.Model.AxesState', 'EPV.Proto'])
+    run.prove(['EPV.Props.C01', 'EPV.Props.C01Methods'], ['EPV.Spec.XPath1Paths', 'EPV.Model.AxesTree', 'EPV.Model.AxesState', 'EPV.Model.AxesEvalState', 'EPV.Proto'])
     try:
         if getattr(run, 'replay', None):
             data = json.loads(Path(run.replay).read_text())
